@@ -316,10 +316,14 @@ def Grammar.equiv (g h : Grammar) : Bool :=
 
 /-- Decidable well-formedness of an extracted grammar: exactly what the C02 theorems assume.
 Operators are keywords whose identifier characters cover those of detection names; whitespace and
-parentheses are not word characters of any terminal; the keyword spellings are the Sigma ones. -/
+parentheses are not word characters of any terminal; the keyword spellings are the Sigma ones;
+the first letter of `of` is an identifier character of the quantifier keywords (otherwise a name
+such as `1ofx` or `allofus` is read as the selector `1 of x` / `all of us`: the quantifier keyword
+would match in front of the `o`). -/
 def Grammar.wf (g : Grammar) : Bool :=
   g.opKeyword &&
   g.identChars.all g.opKwChars.contains &&
+  g.quantKwChars.contains 'o' &&
   (wsChars ++ ['(', ')']).all (fun c =>
     !g.identChars.contains c && !g.patChars.contains c && !g.opKwChars.contains c &&
     !g.quantKwChars.contains c) &&
